@@ -70,16 +70,25 @@ Proof.
     nia.
 Qed.
 
+(* stated with e = d + 1 as a hypothesis so that no closed power of two large constants ever has
+   to be evaluated (lia would try to) *)
+Lemma ratio2 d e k : e = d + 1 -> 0 <= d -> d < k -> 2 * d ^ k <= e ^ k.
+Proof.
+  intros -> Hd Hk.
+  pose proof (bernoulli d k Hd ltac:(lia)) as B.
+  assert (H0 : 0 <= d ^ k) by (apply Z.pow_nonneg; lia).
+  assert (H1 : 0 <= (d + 1) ^ k) by (apply Z.pow_nonneg; lia).
+  destruct (Z.eq_dec d 0) as [->|Hd0].
+  - rewrite Z.pow_0_l by lia. lia.
+  - remember (d ^ k) as X eqn:EX. remember ((d + 1) ^ k) as Y eqn:EY. clear EX EY. nia.
+Qed.
+
 Lemma two_pow_2000 c : 0 <= c <= 1999 -> 2 * c ^ 2000 <= 2000 ^ 2000.
 Proof.
   intros Hc.
-  assert (H1 : c ^ 2000 <= 1999 ^ 2000) by (apply Z.pow_le_mono_l; lia).
-  pose proof (bernoulli 1999 2000 ltac:(lia) ltac:(lia)) as B.
-  change (1999 + 1) with 2000 in B. change (1999 + 2000) with 3999 in B.
-  assert (H0 : 0 <= 1999 ^ 2000) by (apply Z.pow_nonneg; lia).
-  remember (1999 ^ 2000) as X eqn:EX. remember (2000 ^ 2000) as Y eqn:EY.
-  remember (c ^ 2000) as W eqn:EW.
-  clear EX EY EW. lia.
+  apply Z.le_trans with (2 * 1999 ^ 2000).
+  - apply Z.mul_le_mono_nonneg_l; [lia|]. apply Z.pow_le_mono_l. exact Hc.
+  - apply (ratio2 1999 2000 2000 eq_refl); [discriminate|reflexivity].
 Qed.
 
 Lemma Pk_fails b n k : 0 <= b < 1000 -> 1 <= n -> 2000 * (Z.log2 n + 1) <= k -> ~ Pk b n k.
@@ -90,9 +99,12 @@ Proof.
   apply (Pk_down b n (2000 * m) k) in HP; [|lia|lia].
   unfold Pk in HP. set (c := 1000 + b) in *.
   assert (Hm : n < 2 ^ m) by (subst m; apply Z.log2_spec; lia).
-  rewrite !Z.pow_mul_r in HP by lia.
-  pose proof (two_pow_2000 c ltac:(subst c; lia)) as T.
-  assert (Hc0 : 0 < c ^ 2000) by (apply Z.pow_pos_nonneg; subst c; lia).
+  assert (Hc19 : 0 <= c <= 1999) by (subst c; lia).
+  assert (Hm0 : 0 <= m) by lia.
+  assert (Hc0 : 0 < c ^ 2000) by (apply Z.pow_pos_nonneg; [lia|discriminate]).
+  rewrite (Z.pow_mul_r 2000 2000 m) in HP by (first [exact Hm0|discriminate]).
+  rewrite (Z.pow_mul_r c 2000 m) in HP by (first [exact Hm0|discriminate]).
+  pose proof (two_pow_2000 c Hc19) as T.
   remember (c ^ 2000) as X eqn:EX. remember (2000 ^ 2000) as Y eqn:EY. clear EX EY.
   assert (H2 : (2 * X) ^ m <= Y ^ m) by (apply Z.pow_le_mono_l; lia).
   rewrite Z.pow_mul_l in H2.
